@@ -4,6 +4,7 @@ import Pi2.RustTie
 import Pi2.PyTie
 import Pi2.InstUThm
 import Pi2.RustInstTie
+import Pi2.RustExecInv
 /-!
 # C11 — substitution and instantiation obey their algebra
 
@@ -408,11 +409,25 @@ theorem python_pattern_operations_are_the_model :
 
 /-- `instantiate_in_place` as the Rust code computes it (`Pat.instU`: arm by arm with the "unchanged" optimisation; the
 correspondence compares the real checker with it on ALL patterns) is the simple model `inst`, about which the laws above
-and the soundness proof are stated, on every pattern the machine can build (`Shape`) -/
+and the soundness proof are stated, on every pattern the machine can build: `RShape` (every substitution node is one
+that `apply_esubst` / `apply_ssubst` rebuild; implied by `Shape`) holds of every term of every reachable machine state
+(`machine_states_reachable_shape`) -/
 theorem rust_instantiate_is_the_model (vars : List VId) (plugs : List Pat) (hlen : vars.length = plugs.length)
-    (p : Pat) (hs : p.Shape = true) :
+    (p : Pat) (hs : p.RShape = true) :
     (Pat.instU vars plugs p).map (·.getD p) = Pat.inst (Pat.lookupPlug vars plugs) p :=
-  Pat.instU_eq_inst vars plugs hlen p hs
+  Pat.instU_eq_inst_RShape vars plugs hlen p hs
+
+/-- every term on the stack and in the memory of every machine state reachable from the empty state is `RShape` -/
+theorem machine_states_reachable_shape (ph : Phase) (is : List Instr) (s s' : St) (js : List Pat)
+    (h : run ph s is = some (s', js)) (hs : s.RShape = true) : s'.RShape = true :=
+  run_RShape ph is s s' js h hs
+
+/-- the hypothesis is needed: outside `RShape` (a state no instruction sequence builds) the "unchanged" optimisation
+of the Rust code is visible -/
+theorem instantiate_unchanged_visible_outside_shape :
+    (Pat.instU [] [] (.esub (.evar 0) 0 (.evar 1))).map (·.getD (.esub (.evar 0) 0 (.evar 1))) = some (.esub (.evar 0) 0 (.evar 1)) ∧
+    Pat.inst (Pat.lookupPlug [] []) (.esub (.evar 0) 0 (.evar 1)) = some (.evar 1) := by
+  constructor <;> rfl
 
 /-- `instantiate_internal` / `instantiate_in_place` as written in `rust/src/lib.rs` (translated statement by statement on
 every run, `Pi2/Gen/RustInst.lean`; outer `none` = panic, inner `none` = Rust `None`) are the hand-written `Pat.instU`, on
@@ -425,7 +440,7 @@ theorem rust_instantiate_text_is_instU :
 
 /-- hence the Rust text of `instantiate_in_place` computes the simple model `inst` on every pattern the machine can build -/
 theorem rust_instantiate_text_is_the_model (vars : List VId) (plugs : List Pat) (hlen : vars.length = plugs.length)
-    (p : Pat) (hs : p.Shape = true) :
+    (p : Pat) (hs : p.RShape = true) :
     Gen.Rust.instantiate_in_place vars plugs p = Pat.inst (Pat.lookupPlug vars plugs) p :=
   (RustInstTie.instantiate_in_place_eq vars plugs p).trans (rust_instantiate_is_the_model vars plugs hlen p hs)
 
